@@ -472,4 +472,69 @@ def NullErrorBijection (s : SchemaD) (doc : Doc) (vars : Vars) (w : World) (cf f
   ∀ d es, executeFields s doc vars w cf fuel root [] sels = .ok (d, es) →
     (es.map (·.path)).Nodup ∧ ∀ e ∈ es, Data.at d e.path = some .null
 
+
+/-! ## independence from earlier requests (`Schema._possible_types`) -/
+
+/-- the per-schema cache that survives across requests -/
+abbrev PCache := List (String × List String)
+
+/-- `Schema.get_possible_types` with its cache -/
+def getPossibleTypesC (s : SchemaD) (cache : PCache) (n : String) : List String × PCache :=
+  match cache.find? (·.1 == n) with
+  | some kv => (kv.2, cache)
+  | none => (possibleTypes s n, cache ++ [(n, possibleTypes s n)])
+
+/-- `Schema.is_possible_type` through the cache -/
+def isPossibleTypeC (s : SchemaD) (cache : PCache) (abstract obj : String) : Bool × PCache :=
+  if kindOf s obj == some .object then
+    let (l, c) := getPossibleTypesC s cache abstract
+    (l.contains obj, c)
+  else (false, cache)
+
+def CacheOk (s : SchemaD) (cache : PCache) : Prop := ∀ kv ∈ cache, kv.2 = possibleTypes s kv.1
+
+theorem cache_step (s : SchemaD) (cache : PCache) (n : String) (h : CacheOk s cache) :
+    (getPossibleTypesC s cache n).1 = possibleTypes s n ∧ CacheOk s (getPossibleTypesC s cache n).2 := by
+  unfold getPossibleTypesC
+  cases hf : cache.find? (·.1 == n) with
+  | some kv =>
+    have hm := List.mem_of_find?_eq_some hf
+    have hk := List.find?_some hf
+    simp at hk
+    simp [h kv hm, hk, h]
+  | none =>
+    refine ⟨rfl, ?_⟩
+    intro kv hkv
+    simp at hkv
+    rcases hkv with hkv | rfl
+    · exact h kv hkv
+    · rfl
+
+/-- the cache after an arbitrary history of earlier lookups (earlier requests, in any order) -/
+def afterHistory (s : SchemaD) : PCache → List String → PCache
+  | c, [] => c
+  | c, n :: rest => afterHistory s (getPossibleTypesC s c n).2 rest
+
+theorem afterHistory_ok (s : SchemaD) (c : PCache) (hist : List String) (h : CacheOk s c) : CacheOk s (afterHistory s c hist) := by
+  induction hist generalizing c with
+  | nil => exact h
+  | cons n rest ih => exact ih _ (cache_step s c n h).2
+
+/-- **exec_pure**: the executor model is a function of (schema, document, variables, world) only — it consults
+    the schema only through `isPossibleType`/`kindOf`/`fieldOf`; and the one piece of per-schema state that
+    survives requests, the `_possible_types` cache, answers every lookup exactly as the stateless function does
+    after ANY history of earlier lookups. Hence a response cannot depend on requests served before. -/
+theorem exec_pure (s : SchemaD) (history : List String) (abstract obj : String) :
+    (isPossibleTypeC s (afterHistory s [] history) abstract obj).1 = isPossibleType s abstract obj := by
+  have hc : CacheOk s (afterHistory s [] history) := afterHistory_ok s [] history (by intro kv h; simp at h)
+  unfold isPossibleTypeC isPossibleType
+  by_cases hk : kindOf s obj = some .object
+  · simp [hk, (cache_step s _ abstract hc).1]
+  · have : (kindOf s obj == some Kind.object) = false := by simpa using hk
+    simp [this]
+
+/-- the request-level model literally has no other input -/
+theorem exec_deterministic (s : SchemaD) (doc : Doc) (vars : Vars) (w w' : World) (op : Option String) (f c : Nat)
+    (hw : w = w') : execute s doc vars w op f c = execute s doc vars w' op f c := by subst hw; rfl
+
 end PyGql.Props.C04
